@@ -259,10 +259,10 @@ type InhibitRule struct {
 	// Cache of alerts matching source labels.
 	scache *store.Alerts
 
-	// Index of fingerprints of source alert equal labels to fingerprint of source alert.
+	// Index of fingerprints of source alert equal labels to the fingerprints of the cached source alerts with these equal labels.
 	// The index helps speed up source alert lookups from scache significantely in scenarios with 100s of source alerts cached.
-	// The index items might overwrite eachother if multiple source alerts have exact equal labels.
-	// Overwrites only happen if the new source alert has bigger EndsAt value.
+	// Multiple source alerts can have exact equal labels, so each index item holds all of them: any of them that
+	// is still firing inhibits, no matter which of them was updated, resolved or garbage collected last.
 	sindex *index
 }
 
@@ -343,64 +343,35 @@ func (r *InhibitRule) fingerprintEquals(lset model.LabelSet) model.Fingerprint {
 	return equalSet.Fingerprint()
 }
 
-// updateIndex updates the source alert index if necessary.
+// updateIndex adds the source alert to the index.
 func (r *InhibitRule) updateIndex(alert *types.Alert) {
-	fp := alert.Fingerprint()
-	// Calculate source labelset subset which is in equals.
-	eq := r.fingerprintEquals(alert.Labels)
-
-	// Check if the equal labelset is already in the index.
-	indexed, ok := r.sindex.Get(eq)
-	if !ok {
-		// If not, add it.
-		r.sindex.Set(eq, fp)
-		return
-	}
-	// If the indexed fingerprint is the same as the new fingerprint, do nothing.
-	if indexed == fp {
-		return
-	}
-
-	// New alert and existing index are not the same, compare them.
-	existing, err := r.scache.Get(indexed)
-	if err != nil {
-		// failed to get the existing alert, overwrite the index.
-		r.sindex.Set(eq, fp)
-		return
-	}
-
-	// If the new alert resolves after the existing alert, replace the index.
-	if existing.ResolvedAt(alert.EndsAt) {
-		r.sindex.Set(eq, fp)
-		return
-	}
-	// If the existing alert resolves after the new alert, do nothing.
+	r.sindex.Add(r.fingerprintEquals(alert.Labels), alert.Fingerprint())
 }
 
-// findEqualSourceAlert returns the source alert that matches the equal labels of the given label set.
-func (r *InhibitRule) findEqualSourceAlert(lset model.LabelSet, now time.Time) (*types.Alert, bool) {
-	equalsFP := r.fingerprintEquals(lset)
-	sourceFP, ok := r.sindex.Get(equalsFP)
-	if ok {
+// findEqualSourceAlert returns a cached source alert that is not resolved at
+// the given time and matches the equal labels of the given label set. If
+// excludeTwoSidedMatch is true, source alerts that also match the target side
+// of the rule are disregarded.
+func (r *InhibitRule) findEqualSourceAlert(lset model.LabelSet, excludeTwoSidedMatch bool, now time.Time) (*types.Alert, bool) {
+	var found *types.Alert
+	r.sindex.Range(r.fingerprintEquals(lset), func(sourceFP model.Fingerprint) bool {
 		alert, err := r.scache.Get(sourceFP)
-		if err != nil {
-			return nil, false
+		if err != nil || alert.ResolvedAt(now) {
+			return true
 		}
-
-		if alert.ResolvedAt(now) {
-			return nil, false
+		if excludeTwoSidedMatch && r.TargetMatchers.Matches(alert.Labels) {
+			return true
 		}
+		found = alert
+		return false
+	})
 
-		return alert, true
-	}
-
-	return nil, false
+	return found, found != nil
 }
 
 func (r *InhibitRule) gcCallback(alerts []*types.Alert) {
 	for _, a := range alerts {
-		fp := r.fingerprintEquals(a.Labels)
-		r.sindex.Delete(fp)
+		r.sindex.Delete(r.fingerprintEquals(a.Labels), a.Fingerprint())
 	}
 }
 
@@ -409,11 +380,8 @@ func (r *InhibitRule) gcCallback(alerts []*types.Alert) {
 // is returned. If excludeTwoSidedMatch is true, alerts that match both the
 // source and the target side of the rule are disregarded.
 func (r *InhibitRule) hasEqual(lset model.LabelSet, excludeTwoSidedMatch bool, now time.Time) (model.Fingerprint, bool) {
-	equal, found := r.findEqualSourceAlert(lset, now)
+	equal, found := r.findEqualSourceAlert(lset, excludeTwoSidedMatch, now)
 	if found {
-		if excludeTwoSidedMatch && r.TargetMatchers.Matches(equal.Labels) {
-			return model.Fingerprint(0), false
-		}
 		return equal.Fingerprint(), found
 	}
 
